@@ -259,7 +259,7 @@ func TestVerifC02Verdict(t *testing.T) {
 		"req-allow-beats-block", "req-blocked", "req-blocked-hosts-only", "req-safety-second-or-later", "req-svc-rewrite-ignored",
 		"resp-blocked", "resp-allowed", "slots>=3", "meta-allow-added", "meta-rewrite-moved",
 		"repeated-question", "repeated-question-other-requester-modified-response", "change-qtype", "change-host", "edge-host-root-or-tld",
-		"own-allow-equals-shared-allow-with-safety-match", "self-rewrite-target-queried-mixed-case", "case-variant-pair-compared")
+		"own-allow-equals-shared-allow-with-safety-match", "self-rewrite-target-queried-mixed-case", "case-variant-pair-compared", "rewrite-aaaa-ipv4-mapped")
 	st.Finish(t)
 
 	dir := t.TempDir()
@@ -372,6 +372,9 @@ func TestVerifC02Verdict(t *testing.T) {
 			}
 
 			classes := vc02Classes(c, q.host, q.qt, got)
+			if got.Kind == vc02ref.ORwIP && vc02ref.HasMapped(got.IPs) {
+				classes = append(classes, "rewrite-aaaa-ipv4-mapped")
+			}
 
 			// Metamorphic relation 3: DNS names are case-insensitive, so the
 			// verdict and the answer do not depend on the client's spelling of
